@@ -78,6 +78,16 @@ def step_go2v(root, st):
     if rc != 0:
         st["tie_errors"].append({"obligation": "go2v.locate", "detail": out[-3000:]})
         return False
+    # E3: effect summary from SSA
+    rc, out = run(["go", "build", "-o", os.path.join(b, "go2eff"), "."], cwd=os.path.join(root, "tools", "go2eff"), timeout=600)
+    if rc != 0:
+        st["tie_errors"].append({"obligation": "go2eff.build", "detail": out[-2000:]})
+        return False
+    rc, out = run([os.path.join(b, "go2eff"), "-repo", REPO, "-out", os.path.join(root, "coq", "gen")], timeout=300)
+    st["go2v_output"] += "\n" + out
+    if rc != 0:
+        st["tie_errors"].append({"obligation": "go2eff.run", "detail": out[-3000:]})
+        return False
     return True
 
 
@@ -318,6 +328,14 @@ def diff_obs(outdir, limit=50):
             if len(m) > 1 and m[1] == "unmodelled":
                 unm += 1
                 continue
+            if len(m) > 1 and len(a) > 1 and "unmodelled" in m[1]:
+                # an observation made of several components (a history): compare the
+                # components the model covers
+                ca, cm = a[1].split(";"), m[1].split(";")
+                if len(ca) == len(cm) and all(x == y or y == "unmodelled" for x, y in zip(ca, cm)):
+                    if all(y == "unmodelled" for y in cm):
+                        unm += 1
+                    continue
             total_dis += 1
             if len(dis) < limit:
                 dis.append({"case": a[0], "case_line": lc.rstrip("\n"), "impl": a[1] if len(a) > 1 else "",
